@@ -92,6 +92,10 @@ def run(tier, replay=None):
     out.add_tlc(r2)
     for t in dict.fromkeys([c["text"] for c in r1.tagged("CASE")] + [c["text"] for c in r2.tagged("CASE")]):
         add("generated-program", mode="observe", text=t, want=["lints", "items", "yaml"])
+    bres = tlc_generate("Gen_Blocks", cfg="Gen_Blocks" if tier == "quick" else "Gen_Blocks4", heap="6g", timeout=3000)
+    out.add_tlc(bres[1])
+    for c in bres[0]:
+        add("block-layout", mode="observe", text=c["text"], want=["lints"])
     progs = list(corpus.all_programs().values()) + corpus.VALUE_PROGRAMS + corpus.LOOP_PROGRAMS + corpus.ORDER_PROGRAMS
     for p in progs:
         add("corpus", mode="observe", text=p, want=["lints", "items", "yaml"])
@@ -181,5 +185,5 @@ def run(tier, replay=None):
         "evaluations": len(evs), "distinct_nontrivial": len({json.dumps(kw, sort_keys=True) for _, kw in cases}),
         "classes": dict(classes), "cli_runs": ncli, "growth_nodes_vs_max_sweeps": {k: sorted(v) for k, v in growth.items()},
         "exhaustive": False,
-        "rule": "all strings over a 26-symbol lexer alphabet up to length 3 (quick) / 4 (thorough) [exhaustive, Gen_Strings]; Gen_Overflow boundary-grid programs (28 shapes); all include graphs over three files incl. self loops, cycles, missing files [Gen_IncGraph, exhaustive in thorough], also with a reader that never reports cycles; Gen_Values/Gen_Flow simulations; token/line mutations and truncations of corpus programs; scaled programs for the sweep bound; rva in 10 output modes",
+        "rule": "all strings over a 26-symbol lexer alphabet up to length 3 (quick) / 4 (thorough) [exhaustive, Gen_Strings]; Gen_Overflow boundary-grid programs (28 shapes); all include graphs over three files incl. self loops, cycles, missing files [Gen_IncGraph, exhaustive in thorough], also with a reader that never reports cycles; Gen_Values/Gen_Flow simulations; every layout order of a 2..3 (thorough: 4) block cycle [Gen_Blocks, exhaustive]; token/line mutations and truncations of corpus programs; scaled programs for the sweep bound; rva in 10 output modes",
     })
